@@ -1,3 +1,114 @@
-(* C11 - placeholder while the correspondence is being brought up *)
-From Coq Require Import ZArith List.
-From PCB Require Import lib.PyInt gen.Gen_arrays model.Arrays model.VarMem.
+(* C11 - Variable storage is faithfully exposed and never aliased.
+   Only statements, `exact`, Print Assumptions and a non-vacuity example here.
+   Model: model/VarMem.v (Scalars, DataSegment glue, PEEK over the variable area) on model/Arrays.v and the
+   regenerated arithmetic gen/Gen_arrays.v.  Arrays.get_memory is modelled AS FIXED by fixes/D6.patch: on the
+   unfixed code C11_peek_array is false for every array but the first (the check reports the witness).
+   String values are their 3-byte descriptors; the characters live in the string space (property C10). *)
+From Coq Require Import ZArith List Lia.
+From PCB Require Import lib.Result lib.PyInt gen.Gen_arrays model.Arrays model.VarMem.
+From PCB Require Import proofs.Arrays_index_proofs proofs.Arrays_proofs proofs.VarMem_proofs
+  proofs.VarMem_peek_proofs proofs.VarMem_disjoint_proofs proofs.VarMem_history_proofs.
+Import ListNotations.
+Open Scope Z_scope.
+
+(* VInv: scalar names unique, every buffer has the size of its type, scalar records contiguous from
+   var_start, scalars.current = their total size, and the array-table invariant AInv of C12 (records
+   contiguous from var_current, buffer length = flat_length * size).  It holds after every history of
+   LET (scalars and elements), DIM, ERASE, OPTION BASE, CLEAR, SWAP, VARPTR, VARPTR$ (these may
+   auto-dimension), PEEK. *)
+Theorem C11_invariant : forall start ops, 0 <= start -> Forall vop_ok ops ->
+  VInv (vfinal (v_init start) ops).
+Proof. intros start ops H F. exact (vfinal_inv ops (v_init start) (VInv_init start H) F). Qed.
+Print Assumptions C11_invariant.
+
+(* cell_at st n idx p z: scalar n (idx = []) or in-bounds element idx of array n lives at the address p
+   that VARPTR computes, with z bytes *)
+Theorem C11_disjoint : forall st n1 i1 p1 z1 n2 i2 p2 z2, VInv st ->
+  cell_at st n1 i1 p1 z1 -> cell_at st n2 i2 p2 z2 -> (n1, i1) <> (n2, i2) ->
+  p1 + z1 <= p2 \/ p2 + z2 <= p1.
+Proof. exact cells_disjoint. Qed.
+Print Assumptions C11_disjoint.
+
+Theorem C11_inside : forall st n idx p z, VInv st -> cell_at st n idx p z ->
+  0 < z /\ v_start st <= p /\ p + z <= var_current st + a_cur (v_arr st).
+Proof. exact cells_inside. Qed.
+Print Assumptions C11_inside.
+
+(* PEEK at VARPTR(v)+i is byte i of v *)
+Theorem C11_peek_scalar : forall st limit n s i, VInv st -> slookup (v_svars st) n = Some s ->
+  0 <= i < size_bytes n ->
+  varptr st n [] = Ok (s_vptr s) /\
+  peek st limit (s_vptr s + i) = Some (Ok (nth (Z.to_nat i) (s_buf s) 0)).
+Proof.
+  intros st limit n s i V L H. split; [unfold varptr; rewrite L; reflexivity | exact (peek_scalar st limit n s i V L H)].
+Qed.
+Print Assumptions C11_peek_scalar.
+
+(* the record in front of a scalar: type size and name bytes as get_name_in_memory (regenerated) lays them out *)
+Theorem C11_peek_scalar_record : forall st limit n s j, VInv st -> slookup (v_svars st) n = Some s ->
+  0 <= j < scalars_record_size n ->
+  s_vptr s = s_nptr s + scalars_record_size n /\
+  peek st limit (s_nptr s + j) = Some (Ok (Z.max 0 (get_name_in_memory n j))).
+Proof.
+  intros st limit n s j V L H. split; [|exact (peek_scalar_record st limit n s j V L H)].
+  destruct (slookup_some _ _ _ L) as [Hin Hn]. pose proof (vi_ok st V) as F. rewrite Forall_forall in F.
+  rewrite <- Hn. apply (F s Hin).
+Qed.
+Print Assumptions C11_peek_scalar_record.
+
+(* ... and the same for every element of every array (first, second, any) *)
+Theorem C11_peek_array : forall st limit n a idx i, VInv st -> lookup (a_list (v_arr st)) n = Some a ->
+  in_bounds (base_of (v_arr st)) (a_dims a) idx -> 0 <= i < size_bytes n ->
+  exists p, varptr st n idx = Ok p /\
+    peek st limit (p + i) = Some (Ok (nth (Z.to_nat i) (elem_of (base_of (v_arr st)) a idx) 0)).
+Proof. exact peek_array. Qed.
+Print Assumptions C11_peek_array.
+
+(* VARPTR$ = type size, then the address little-endian *)
+Theorem C11_varptr_str : forall st limit n idx st1 p, varptr_ st limit n idx = (st1, Ok p) ->
+  varptr_str_ st limit n idx = (st1, Ok [size_bytes n; p mod 256; (p / 256) mod 256]) /\
+  (0 <= p < 65536 -> le_decode [p mod 256; (p / 256) mod 256] = p).
+Proof. exact varptr_str_layout. Qed.
+Print Assumptions C11_varptr_str.
+
+(* assigning one variable or element never changes another *)
+Theorem C11_frame_scalar : forall st limit n v n', n' <> n ->
+  (forall s, slookup (v_svars st) n' = Some s -> slookup (v_svars (fst (let_scalar st limit n v))) n' = Some s) /\
+  v_arr (fst (let_scalar st limit n v)) = v_arr st.
+Proof. exact let_scalar_frame. Qed.
+Print Assumptions C11_frame_scalar.
+
+Theorem C11_frame_elem : forall st limit n idx v, VInv st -> sigil_ok n ->
+  v_svars (fst (let_elem st limit n idx v)) = v_svars st /\
+  (snd (let_elem st limit n idx v) = Ok tt ->
+   forall n' a' idx', lookup (a_list (v_arr st)) n' = Some a' ->
+     in_bounds (base_of (v_arr st)) (a_dims a') idx' -> (n', idx') <> (n, idx) ->
+     exists a'', lookup (a_list (v_arr (fst (let_elem st limit n idx v)))) n' = Some a'' /\
+       a_dims a'' = a_dims a' /\
+       elem_of (base_of (v_arr (fst (let_elem st limit n idx v)))) a'' idx' =
+       elem_of (base_of (v_arr st)) a' idx').
+Proof. exact let_elem_frame. Qed.
+Print Assumptions C11_frame_elem.
+
+(* non-vacuity: the D6 witness in the model of the fixed code: DIM A%(3):DIM B%(3):B%(0)=&H4321 *)
+Example C11_nonvacuous :
+  let A := [65; 37] in let B := [66; 37] in
+  let ops := [VDim 65020 [(A, [3])]; VDim 65020 [(B, [3])]; VLetE 65020 B [0] [33; 67]; VLetS 65020 [88; 33] [1; 2; 3; 4]] in
+  let st := vfinal (v_init 4720) ops in
+  Forall vop_ok ops /\ VInv st /\
+  varptr st B [0] = Ok 4754 /\ peek st 65020 4754 = Some (Ok 33) /\ peek st 65020 4755 = Some (Ok 67) /\
+  varptr st [88; 33] [] = Ok 4724 /\ peek st 65020 4727 = Some (Ok 4).
+Proof.
+  cbv zeta.
+  assert (F : Forall vop_ok [VDim 65020 [([65; 37], [3])]; VDim 65020 [([66; 37], [3])];
+                             VLetE 65020 [66; 37] [0] [33; 67]; VLetS 65020 [88; 33] [1; 2; 3; 4]]).
+  { assert (SA : sigil_ok [65; 37]) by (unfold sigil_ok; simpl; tauto).
+    assert (SB : sigil_ok [66; 37]) by (unfold sigil_ok; simpl; tauto).
+    assert (SX : sigil_ok [88; 33]) by (unfold sigil_ok; simpl; tauto).
+    assert (BY : forall l, Forall (fun b => 0 <= b < 256) l -> bytes_ok l) by (intros l H; exact H).
+    repeat apply Forall_cons; try apply Forall_nil; simpl; auto.
+    - split; [assumption|]. apply BY. repeat apply Forall_cons; try apply Forall_nil; lia.
+    - split; [assumption|]. split; [reflexivity|]. apply BY. repeat apply Forall_cons; try apply Forall_nil; lia. }
+  split; [exact F|]. split; [apply C11_invariant; [lia | exact F]|].
+  vm_compute. repeat split; reflexivity.
+Qed.
